@@ -141,6 +141,14 @@ impl<S: Read + Write> RdpClient<S> {
         }
     }
 
+    /// Number of bytes already received that a call to read
+    /// will consume without waiting for the socket.
+    /// An event loop that waits on the socket must call read
+    /// while this is not zero
+    pub fn pending(&self) -> usize {
+        self.mcs.pending()
+    }
+
     /// Close client is indeed close the switch layer
     pub fn shutdown(&mut self) -> RdpResult<()> {
         self.mcs.shutdown()
